@@ -80,6 +80,7 @@ pub struct Obs {
     pub page_log: Mutex<bool>,
     pub clock: Mutex<Option<Vec<u64>>>, // fake clock readings, consumed front to back (last one repeats)
     pub clock_log: Mutex<Vec<(u64, u64)>>,
+    pub hnsw_levels: Mutex<Option<Vec<u8>>>, // scripted levels of the next vector insertions, consumed front to back
 }
 
 fn file_name_of(file: Option<&File>, path: Option<&Path>) -> (Option<PathBuf>, String) {
@@ -325,6 +326,14 @@ impl Observer for Obs {
             return;
         }
         self.pages.lock().unwrap().push((op, page, structure));
+    }
+
+    fn hnsw_level(&self) -> Option<u8> {
+        let mut l = self.hnsw_levels.lock().unwrap();
+        match l.as_mut() {
+            Some(v) if !v.is_empty() => Some(v.remove(0)),
+            _ => None,
+        }
     }
 
     fn ext_id(&self, counter: u64, computed: u64) -> u64 {
